@@ -310,3 +310,11 @@ func CanonPE(pe fieldpath.PathElement) string {
 	}
 	return "x"
 }
+
+// CanonValue prints a value so that Equal values print identically (numerically equal ints and
+// floats coincide); an equality independent of the library's own Equals.
+func CanonValue(v value.Value) string {
+	var b strings.Builder
+	writeVC(&b, v, true)
+	return b.String()
+}
